@@ -57,6 +57,16 @@ def _eq(a, b):
     return type(a) is type(b) and a == b
 
 
+def _arities(t, acc=None):
+    """function symbol -> set of argument counts it is applied with inside t"""
+    acc = {} if acc is None else acc
+    if isinstance(t, tuple) and t and callable(t[0]):
+        acc.setdefault(t[0].__name__, set()).add(len(t) - 1)
+        for a in t[1:]:
+            _arities(a, acc)
+    return acc
+
+
 def sweep(tier, seed=0):
     from dask.rewrite import RewriteRule, RuleSet
 
@@ -118,7 +128,32 @@ def sweep(tier, seed=0):
                     break
         if len(fails) >= 5:
             break
+    # one function symbol applied with different numbers of arguments in the rule and in the term (the discrimination
+    # net is built from a flat traversal and cannot see where the arguments of a task end)
+    if len(fails) < 5:
+        mixed_pats = [(f, (g, "x"), "y"), (f, "x", "y"), (f, "x", (g, "y")), (g, "x"), (f, (g, "x", "y"), "x")]
+        sub = [1, 0, (g, 1), (g, 0, 1), (g,)]
+        mixed_terms = [(f, a) for a in sub] + [(f, a, b) for a in sub for b in sub] + [(f, a, b, c) for a in sub[:3] for b in sub[:3] for c in sub[:2]] + [(g,), (g, 1), (g, 1, 0), (f,)]
+        for lhs in mixed_pats:
+            rule = RewriteRule(lhs, (h, 0), VARS)
+            rs = RuleSet(rule)
+            for term in mixed_terms:
+                cases += 1
+                want = match(lhs, term, VARS, {})
+                mismatch = _arities(lhs) != {k: v for k, v in _arities(term).items() if k in _arities(lhs)} or any(k not in _arities(lhs) for k in _arities(term))
+                try:
+                    got = [sb for _, sb in rs.iter_matches(term)]
+                    ok = (want is None and not got) or (want is not None and len(got) == 1 and {k: repr(v) for k, v in got[0].items()} == {k: repr(v) for k, v in want.items()})
+                    msg = None if ok else f"iter_matches yields bindings {got!r}; instantiating the left-hand side with them does not give the term (correct answer: {want!r})"
+                except Exception as e:  # noqa
+                    msg = f"{type(e).__name__}: {e}"
+                if msg:
+                    fails.append(rtc.Failure("RuleSet.iter_matches", {"rules": [repr(lhs)], "term": repr(term), "arity_mismatch": bool(mismatch)}, "ensures", "C51-sound-and-complete", msg))
+                    if sum(1 for x in fails if not x.args.get("arity_mismatch")) >= 3 or len(fails) >= 40:
+                        break
+            if len(fails) >= 40:
+                break
     return {"function": "dask/rewrite.py:RuleSet.iter_matches/_rewrite (real code) vs a brute-force matcher", "bounded": True,
             "bound": {"alphabet": "f/2, g/1, constants 'a', 0, 1, '' (falsy ones included), variables x, y", "pattern/term depth": 2, "rule sets": len(rulesets)},
             "cases": cases, "distinct_nontrivial": cases, "failures_found": len(fails), "wall_s": round(time.time() - t0, 2),
-            "samples": [{"native_case": {"rules": ["(f, (g, 'x'), (g, 'x'))", "(f, 'x', 'y')"], "term": "(f, (g, 1), (g, 2))"}}], "failures": fails[:5]}
+            "samples": [{"native_case": {"rules": ["(f, (g, 'x'), (g, 'x'))", "(f, 'x', 'y')"], "term": "(f, (g, 1), (g, 2))"}}], "failures": fails[:40]}
